@@ -176,6 +176,12 @@ pub struct WorldCfg {
     pub denoms: Vec<String>,
     #[serde(default)]
     pub unregistered: Vec<usize>,
+    /// if not empty (one entry per native denom): the denoms are first registered with THESE decimals, the
+    /// first pair is created, then every denom whose entry differs is re-registered with its final value
+    /// (`native_decimals`), and only then the remaining pairs are created - so the world's later pairs are
+    /// created after a re-registration, and its first pair has lived through one
+    #[serde(default)]
+    pub staged_decimals: Vec<u8>,
 }
 
 #[derive(Clone, Debug)]
@@ -746,7 +752,7 @@ impl World {
             app.execute_contract(
                 owner.clone(),
                 factory.clone(),
-                &haloswap::factory::ExecuteMsg::AddNativeTokenDecimals { denom: d.clone(), decimals: cfg.native_decimals[i] },
+                &haloswap::factory::ExecuteMsg::AddNativeTokenDecimals { denom: d.clone(), decimals: cfg.staged_decimals.get(i).copied().unwrap_or(cfg.native_decimals[i]) },
                 &[],
             )
             .map_err(e)?;
@@ -777,8 +783,18 @@ impl World {
             tokens.push(TokenRec { addr, decimals: *dec });
         }
         let mut w = World { app, codes, cfg: cfg.clone(), owner, factory, router, proxy, natives, tokens, pairs: vec![], actors, bystanders, native_decimals_now: cfg.native_decimals.clone() };
-        for pc in cfg.pairs.clone() {
+        for (k, pc) in cfg.pairs.clone().into_iter().enumerate() {
             w.create_pair(&pc)?;
+            if k == 0 && !cfg.staged_decimals.is_empty() {
+                for (i, d) in w.natives.clone().iter().enumerate() {
+                    if cfg.unregistered.contains(&i) || cfg.staged_decimals.get(i).copied() == Some(cfg.native_decimals[i]) {
+                        continue;
+                    }
+                    w.app
+                        .execute_contract(w.owner.clone(), w.factory.clone(), &haloswap::factory::ExecuteMsg::AddNativeTokenDecimals { denom: d.clone(), decimals: cfg.native_decimals[i] }, &[])
+                        .map_err(|x| format!("{:#}", x))?;
+                }
+            }
         }
         // allowances toward every pair and the router
         let spenders: Vec<Addr> = w.pairs.iter().map(|p| p.addr.clone()).chain(std::iter::once(w.router.clone())).collect();
